@@ -81,12 +81,10 @@ def anneal_temperature_range(model, start_flip_prob=0.5,
     if not spin:
         model = pubo_to_puso(model)
 
-    # if D is a Matrix object or QUBO, PUBO, etc, then variables are defined
-    try:
-        # don't waste time copying (model.variables), since we never mutate it.
-        variables = model._variables
-    except AttributeError:
-        variables = set(v for k in model for v in k)
+    # the variables that actually appear in the model. (The cached
+    # ``model._variables`` of a Matrix object or QUBO, PUBO, etc can contain
+    # variables whose terms have since cancelled.)
+    variables = set(v for k in model for v in k)
 
     # if the model is empty or just an offset
     if not variables:
